@@ -21,11 +21,11 @@ LEAN_TARGETS = ["PyatvModel.Props.C04Tlv8", "PyatvModel.C04.Tlv8.Driver"]
 DRIVER = "Driver/C04Tlv8.lean"
 RULE = ("dicts of 0..5 items, distinct tags (HAP TlvValue members, 0, 255, random; also IntEnum keys), value "
         "lengths drawn from {0,1,2,32,254,255,256,257,509,510,511,765,766,1020,random<=1100} (thorough: up to "
-        "200 fragments); re-fragmented legal variants; interleaved variants; truncated and random streams. "
+        "60 fragments); re-fragmented legal variants; interleaved variants; truncated and random streams. "
         "non-trivial = some value empty or >= 255 bytes, or a variant/malformed case; distinct = (kind, items / bytes)")
 ASSUMPTIONS = [
     "tlv8: read_tlv recurses once per TLV item, so streams with more items than Python's recursion limit "
-    "(~990) raise RecursionError; the model recursion is unbounded and generated cases stay below 250 items",
+    "(~990) raise RecursionError; the model recursion is unbounded and generated cases stay below 100 items",
     "tlv8: dict keys are ints (or IntEnum) in 0..255 and values are bytes, as write_tlv's docstring requires",
 ]
 TRUSTED = ["harness/c04_tlv8.py reference TLV8 encoder/decoder (written from the HAP TLV8 rules)"]
@@ -83,8 +83,8 @@ def _gen_items(ctx, rng, big=False):
     items = []
     for t in tags:
         ln = rng.choice(LENGTHS + [rng.randint(0, 40), rng.randint(0, 1100)])
-        if big and rng.chance(0.15):
-            ln = 255 * rng.randint(3, 200) + rng.choice([-1, 0, 1])
+        if big and rng.chance(0.02):
+            ln = 255 * rng.randint(3, 60) + rng.choice([-1, 0, 1])
         items.append([t, rng.bytes_(ln).hex()])
     return items
 
@@ -122,15 +122,15 @@ def gen_cases(ctx):
              {"kind": "enc", "items": [[6, "01"], [3, "ab" * 255]]},
              {"kind": "enc", "items": [[5, "cd" * 256], [255, ""]]},
              {"kind": "enc", "items": [[0, "ef" * 510]]}]
-    for _ in range(ctx.scale(300, 6000)):
+    for _ in range(ctx.scale(300, 2500)):
         cases.append({"kind": "enc", "items": _gen_items(ctx, rng, big=ctx.thorough), "enum": rng.chance(0.3)})
-    for _ in range(ctx.scale(150, 3000)):
+    for _ in range(ctx.scale(150, 1200)):
         items = _gen_items(ctx, rng)
         cases.append({"kind": "variant", "items": items, "data": _refragment(rng, items).hex()})
-    for _ in range(ctx.scale(60, 1000)):
+    for _ in range(ctx.scale(60, 400)):
         items = _gen_items(ctx, rng)
         cases.append({"kind": "lenient", "data": _refragment(rng, items, interleave=True).hex()})
-    for _ in range(ctx.scale(150, 3000)):
+    for _ in range(ctx.scale(150, 1200)):
         if rng.chance(0.7):
             data = ref_enc([(t, bytes.fromhex(h)) for t, h in _gen_items(ctx, rng)])
             data = data[: rng.randint(0, len(data))] if data else data
